@@ -249,7 +249,7 @@ def judgeApp (prop : String) (line : String) : Option String :=
                                forced := forced }
       let v := match prop with
         | "C10" => Spec.judgeC10 o
-        | "C13" => Spec.judgeC13 o
+        | "C13" => if forced.isSome then Spec.judgeC13s o else Spec.judgeC13 o
         | "C14" => Spec.judgeC14 o
         | "C15" => Spec.judgeC15 o
         | "C16" => Spec.judgeC16 o
